@@ -13,6 +13,9 @@ PROP = dict(
           "recomputed tx hash; one/all transactions hashed for a foreign chain id with stored or recomputed block hash; signature; receipt fee/status/reason/gas/messages; events from/keys/data/order/emitting tx; state-diff entries with "
           "stored or recomputed block hash; old/new root; Sierra class body; number/parent/unsupported version with valid hash). Every case is "
           "non-trivial (a committed field changed); distinct = tamper name x position x block hash x network configuration. "
+          "Presentation history drawn per case (labels history:*): the tampered copy arrives at a node that has seen nothing of the genuine block p, or has "
+          "verified the genuine blocks p..k ahead of the head (SanityCheckNewHeight without Store, as the sync pipeline does), or has stored p..k and reverted "
+          "them again, or both - on the same Blockchain object; then 1-3 tampered copies in a row (the same again, or fresh draws), each rejected without trace. "
           "Labels net:*, first07:*, net:custom/unverifiable-range:* count the configuration classes."),
     assumptions=["networks whose unverifiable range contains the generated heights (integration, goerli) are not drawn: inside the range juno documents that "
                  "hashes are not verified; custom ranges never contain the tampered height p (heights below p may be inside: those valid blocks must be accepted)",
